@@ -71,13 +71,16 @@ def np_dtype(case):
 
 
 def build_array(case):
-    """the structured array whose rows hold exactly the case's element bytes.  With case["view"] = [start, step] the
-    array is the strided view base[start::step] of a larger array whose other rows are zero (same table, other memory
-    layout); otherwise it is contiguous."""
+    """the structured array whose rows hold exactly the case's element bytes.
+    case["view"] = [start, step]: the strided view base[start::step] of a larger array whose other rows are zero;
+    case["form"] (list): "reversed" = base[::-1] of an array holding the rows in reverse order (negative stride),
+    "readonly" = WRITEABLE flag cleared, "recarray" = numpy.recarray subclass view, "foreign" = memory owned by a bytes
+    object (np.frombuffer without copy; read-only).  Same table in every form, only the memory layout / flags differ."""
     import numpy as np
     dt = np_dtype(case)
     rows = [b"".join(el_bytes(f, el) for f, els in zip(case["fields"], r) for el in els) for r in case["rows"]]
     assert all(len(x) == dt.itemsize for x in rows), (dt, [len(x) for x in rows])
+    form = case.get("form") or []
     if case.get("view"):
         start, step = case["view"]
         n = len(rows)
@@ -89,8 +92,17 @@ def build_array(case):
         base = np.frombuffer(bytes(buf), dtype=dt).copy()
         a = base[start:start + step * (n - 1) + 1:step]
         assert a.shape[0] == n
-        return a
-    return np.frombuffer(b"".join(rows), dtype=dt).copy()
+    elif "reversed" in form:
+        a = np.frombuffer(b"".join(reversed(rows)), dtype=dt).copy()[::-1]
+    elif "foreign" in form:
+        a = np.frombuffer(b"".join(rows), dtype=dt)
+    else:
+        a = np.frombuffer(b"".join(rows), dtype=dt).copy()
+    if "recarray" in form:
+        a = a.view(np.recarray)
+    if "readonly" in form:
+        a.setflags(write=False)
+    return a
 
 
 def f8_of_bits(h):
@@ -302,8 +314,20 @@ class SFileRT(_Base):
         fn = _tmp(self.work, "s")
         out = {}
         try:
+            api = c.get("api") or {}
+            kw = {"delim": c["delim"]}
+            if api.get("header"):
+                kw["header"] = {"note": "x y", "n": 3, "flt": 1.5}
+            if api.get("defaults"):
+                kw.update(padnull=False, ignorenull=False, append=False)
             try:
-                sfile.write(a, fn, delim=c["delim"])
+                if api.get("writer") == "SFile":
+                    with sfile.SFile(fn, mode="w", delim=c["delim"]) as sf:
+                        sf.write(a, header=kw.get("header"))
+                elif api.get("order") == "fd":
+                    sfile.write(fn, a, **kw)
+                else:
+                    sfile.write(a, fn, **kw)
             except Exception as e:  # noqa
                 return {"write_err": [core.errclass(e), "%s: %s" % (type(e).__name__, str(e)[:200])]}
             raw = open(fn, "rb").read()
@@ -321,7 +345,19 @@ class SFileRT(_Base):
                 out["hdr_err"] = "%s: %s" % (type(e).__name__, str(e)[:200])
             out["text"] = raw[off:].hex()
             try:
-                out["read"] = ["ok", canon_array(sfile.read(fn))]
+                rd = api.get("reader")
+                if rd == "header":
+                    res, hd2 = sfile.read(fn, header=True)
+                    assert hd2["_DELIM"] == c["delim"]
+                elif rd == "SFile":
+                    with sfile.SFile(fn) as sf:
+                        res = sf.read()
+                elif rd == "slice":
+                    with sfile.SFile(fn) as sf:
+                        res = sf[:]
+                else:
+                    res = sfile.read(fn)
+                out["read"] = ["ok", canon_array(res)]
             except Exception as e:  # noqa
                 out["read"] = ["err", core.errclass(e), "%s: %s" % (type(e).__name__, str(e)[:200])]
             return out
@@ -348,15 +384,39 @@ class RecfileRT(_Base):
         fn = _tmp(self.work, "r")
         out = {}
         try:
+            api = c.get("api") or {}
+            wkw = {"delim": c["delim"]}
+            if api.get("defaults"):
+                wkw.update(padnull=False, ignorenull=False, bracket_arrays=False)
             try:
-                with recfile.Recfile(fn, mode="w", delim=c["delim"]) as r:
+                if api.get("writer") == "func":
+                    recfile.write(fn, a, **wkw)
+                elif api.get("writer") == "Open":
+                    r = recfile.Open(fn, mode="w", **wkw)
                     r.write(a)
+                    r.close()
+                else:
+                    with recfile.Recfile(fn, mode="w", **wkw) as r:
+                        r.write(a)
             except Exception as e:  # noqa
                 return {"write_err": [core.errclass(e), "%s: %s" % (type(e).__name__, str(e)[:200])]}
             out["text"] = open(fn, "rb").read().hex()
+            rkw = {"delim": c["delim"]}
+            if api.get("nrows"):
+                rkw["nrows"] = len(c["rows"])
+            if api.get("defaults"):
+                rkw["offset"] = 0
+            dt = a.dtype.descr if api.get("dtype") == "descr" else a.dtype
             try:
-                with recfile.Recfile(fn, mode="r", dtype=a.dtype, delim=c["delim"]) as r:
-                    out["read"] = ["ok", canon_array(r.read())]
+                if api.get("reader") == "func":
+                    res = recfile.read(fn, dt, **rkw)
+                elif api.get("reader") == "slice":
+                    with recfile.Recfile(fn, mode="r", dtype=dt, **rkw) as r:
+                        res = r[:]
+                else:
+                    with recfile.Recfile(fn, mode="r", dtype=dt, **rkw) as r:
+                        res = r.read()
+                out["read"] = ["ok", canon_array(res)]
             except Exception as e:  # noqa
                 out["read"] = ["err", core.errclass(e), "%s: %s" % (type(e).__name__, str(e)[:200])]
             return out
@@ -606,6 +666,36 @@ def gen_cases(ctx, round, entry):
             c = mk_case(r, f, r.randint(2, 5), d, "strided-view", True)
             c["view"] = [r.randint(0, 2), r.randint(2, 3)]
             cs.append(c)
+        # -- other array forms of the same table (reversed view, read-only, recarray, foreign read-only memory) and other
+        #    spellings of the calls (argument order, header=, defaults given explicitly, SFile/Open/function wrappers,
+        #    nrows= given, dtype as descr list, [:] instead of read())
+        forms = [["reversed"], ["readonly"], ["recarray"], ["foreign"], ["reversed", "readonly"], ["recarray", "readonly"]]
+        apis_s = [{"order": "fd"}, {"header": True}, {"defaults": True}, {"writer": "SFile"}, {"reader": "header"}, {"reader": "SFile"},
+                  {"reader": "slice"}, {"order": "fd", "header": True, "defaults": True, "reader": "slice"}]
+        apis_r = [{"writer": "func"}, {"writer": "Open"}, {"reader": "func"}, {"reader": "slice"}, {"nrows": True}, {"dtype": "descr"},
+                  {"defaults": True}, {"writer": "func", "reader": "func", "nrows": True, "dtype": "descr", "defaults": True}]
+        for i, form in enumerate(forms * (1 if q else 3)):
+            f = [rnd_field(r, k) for k in range(r.randint(2, 4))]
+            c = mk_case(r, f, r.randint(1, 5), DELIMS[i % len(DELIMS)], "array-forms", True)
+            c["form"] = form
+            cs.append(c)
+        for i, api in enumerate((apis_s if entry == "sfile" else apis_r) * (1 if q else 3)):
+            f = [rnd_field(r, k) for k in range(r.randint(2, 4))]
+            c = mk_case(r, f, r.randint(1, 5), DELIMS[(i + 2) % len(DELIMS)], "api-forms", True)
+            c["api"] = api
+            if r.random() < 0.3:
+                c["form"] = r.choice(forms)
+            cs.append(c)
+        # -- long tables: row counts 2^k +- 1 beyond stdio and block sizes
+        for nrows in ((16385,) if q else (1025, 4095, 16383, 16385, 32769, 65537, 100003)):
+            f = [{"name": "i", "t": r.choice(["i2", "u2", "i1"]), "o": r.choice("<>"), "shape": []},
+                 {"name": "s", "t": "S1", "o": "|", "shape": []}]
+            if nrows < 2000:
+                f.append({"name": "x", "t": "f4", "o": r.choice("<>"), "shape": []})
+            c = mk_case(r, f, nrows, r.choice(DELIMS), "long-rows", True)
+            if nrows in (16385, 65537):
+                c["view"] = [1, 2]
+            cs.append(c)
         # -- many rows
         for nrows in ((37,) if q else (37, 150, 1000)):
             f = [{"name": "i", "t": "i8", "o": ">", "shape": []}, {"name": "s", "t": "S2", "o": "|", "shape": []},
@@ -634,12 +724,27 @@ def run_entry(ctx, preamble, entry, cases, tag):
     outs = [entry.impl(c) for c in cases]
     terms = [entry.term(c, o) for c, o in zip(cases, outs)]
     shard = max(10, min(120, -(-len(terms) // core.NCPU)))
+    # balance the shards by term size (long tables cost seconds each): largest first, dealt out round-robin
+    nsh = -(-len(terms) // shard) if terms else 1
+    by_size = sorted(range(len(terms)), key=lambda i: -len(terms[i]))
+    bins = [by_size[k::nsh] for k in range(nsh)]
+    shard = max(len(b) for b in bins) if terms else shard
+    order = []
+    for b in bins:                      # coq_eval cuts consecutive slices of length `shard`: pad the bins to equal length
+        order.extend(b + [None] * (shard - len(b)))
+    while order and order[-1] is None:
+        order.pop()
     try:
-        vals = core.coq_eval(os.path.join(ctx.work, tag), preamble, terms, shard=shard, tag=tag)
+        pv = core.coq_eval(os.path.join(ctx.work, tag), preamble, [terms[i] if i is not None else "0" for i in order],
+                           shard=shard, tag=tag)
     except core.CoqEvalError as e:
         ctx.violation("case file of entry %s does not evaluate in Coq" % entry.name,
                       {"kind": "case-file", "entry": entry.name, "error": str(e)[-3000:]}, found_input=False)
         return []
+    vals = [None] * len(terms)
+    for i, v in zip(order, pv):
+        if i is not None:
+            vals[i] = v
     return [(c, o, int(v.replace("%Z", "").strip("() "))) for c, o, v in zip(cases, outs, vals)]
 
 
@@ -660,11 +765,16 @@ def differential(ctx, entries, replay_case=None):
             c.setdefault("entry", ent.name)
         res = run_entry(ctx, PRE, ent, cases, "d_" + ent.name)
         for c, o, v in res:
-            ctx.case([ent.name, c], ent.nontrivial(c, o), ent.family(c), sample={"entry": ent.name, "input": c, "impl_output": o})
+            big = len(c["rows"]) > 50
+            ctx.case([ent.name, c], ent.nontrivial(c, o), ent.family(c),
+                     sample={"entry": ent.name, "input": c if not big else dict(c, rows=c["rows"][:3], rows_total=len(c["rows"])),
+                             "impl_output": o if not big else "(omitted: %d rows)" % len(c["rows"])})
             ctx.count("verdict:%s:%d%s" % (ent.name, v & 3, ":known-class" if v & 4 else ""))
             ctx.count("delim:%r" % c["delim"])
             ctx.count("rows:%d" % len(c["rows"]))
-            ctx.count("layout:%s" % ("strided-view" if c.get("view") else "contiguous"))
+            ctx.count("layout:%s" % ("strided-view" if c.get("view") else "+".join(c.get("form") or ["contiguous"])))
+            for k, v in sorted((c.get("api") or {}).items()):
+                ctx.count("api:%s=%s" % (k, v))
             for f in c["fields"]:
                 ctx.count("type:%s%s" % (f["t"] if f["t"][0] != "S" else "S", "" if not f["shape"] else "[%dd]" % len(f["shape"])))
             if o.get("read", ["ok"])[0] == "err":
@@ -769,6 +879,13 @@ def run(ctx, replay=None):
                 "array read back? verified checker on the implementation's output).  non-trivial: >= 2 fields of different kinds, "
                 ">= 2 rows, at least one value that is not a small non-negative integer.  distinct by canonical JSON.")
     ctx.trusted = TRUSTED
+    # case files of long tables are large list literals: give coqc (child processes) all the stack the system allows
+    try:
+        import resource
+        soft, hard = resource.getrlimit(resource.RLIMIT_STACK)
+        resource.setrlimit(resource.RLIMIT_STACK, (hard, hard))
+    except Exception:  # noqa
+        pass
     translate_step(ctx)
     core.proof_step(ctx, "C04", core.ALLOW_DISCRETE)
     differential(ctx, ENTRIES, replay)
